@@ -179,4 +179,142 @@ theorem loop2_err (sp : Spec) : ∀ (evs : List Ev) (st : St2) (x : PyErr), loop
       cases hx
       exact step2_err sp st e _ hy
 
+/-! ### the `Start(.*Action)` match -/
+
+theorem longestPrefixEnding_sound (pat : Str) : ∀ (s p : Str), longestPrefixEnding pat s = some p → p <+: s ∧ pat <:+ p
+  | [], p, h => by
+    simp only [longestPrefixEnding] at h
+    split at h
+    · cases h
+      rename_i he
+      have : pat = [] := by simpa using he
+      subst this
+      exact ⟨List.prefix_refl _, List.suffix_refl _⟩
+    · cases h
+  | c :: cs, p, h => by
+    simp only [longestPrefixEnding] at h
+    split at h
+    · rename_i q hq
+      cases h
+      obtain ⟨h1, h2⟩ := longestPrefixEnding_sound pat cs q hq
+      exact ⟨List.cons_prefix_cons.mpr ⟨rfl, h1⟩, List.IsSuffix.trans h2 (List.suffix_cons c q)⟩
+    · split at h
+      · rename_i hp
+        cases h
+        exact ⟨List.isPrefixOf_iff_prefix.mp hp, List.suffix_refl _⟩
+      · cases h
+
+theorem longestPrefixEnding_none_absurd (pat : Str) : ∀ (s q : Str), longestPrefixEnding pat s = none → q <+: s → pat <:+ q → False
+  | [], q, h, hq, hs => by
+    have hq' : q = [] := List.prefix_nil.mp hq
+    subst hq'
+    have hp : pat = [] := List.suffix_nil.mp hs
+    subst hp
+    simp [longestPrefixEnding] at h
+  | c :: cs, q, h, hq, hs => by
+    simp only [longestPrefixEnding] at h
+    split at h
+    · cases h
+    · rename_i hnone
+      split at h
+      · cases h
+      · rename_i hp
+        cases q with
+        | nil =>
+          have : pat = [] := List.suffix_nil.mp hs
+          subst this
+          simp at hp
+        | cons d ds =>
+          have hcd := (List.cons_prefix_cons.mp hq)
+          rcases List.suffix_cons_iff.mp hs with h1 | h1
+          · subst h1
+            exact hp (List.isPrefixOf_iff_prefix.mpr hq)
+          · exact longestPrefixEnding_none_absurd pat cs ds hnone hcd.2 h1
+
+/-- greedy: no longer prefix of `s` ends with `pat` -/
+theorem longestPrefixEnding_greedy (pat : Str) : ∀ (s p q : Str), longestPrefixEnding pat s = some p → q <+: s → pat <:+ q → q.length ≤ p.length
+  | [], p, q, h, hq, _ => by
+    have : q = [] := List.prefix_nil.mp hq
+    subst this; simp
+  | c :: cs, p, q, h, hq, hs => by
+    simp only [longestPrefixEnding] at h
+    split at h
+    · rename_i r hr
+      cases h
+      cases q with
+      | nil => simp
+      | cons d ds =>
+        have hds : ds <+: cs := (List.cons_prefix_cons.mp hq).2
+        by_cases hpat : pat <:+ ds
+        · have := longestPrefixEnding_greedy pat cs r ds hr hds hpat
+          simp; omega
+        · -- pat is a suffix of d :: ds but not of ds: pat = d :: ds
+          have : pat = d :: ds := by
+            rcases List.suffix_cons_iff.mp hs with h1 | h1
+            · exact h1
+            · exact absurd h1 hpat
+          have hle := (longestPrefixEnding_sound pat cs r hr)
+          have : pat.length ≤ r.length := hle.2.length_le
+          simp_all; omega
+    · split at h
+      · rename_i hnone hp
+        cases h
+        cases q with
+        | nil => simp
+        | cons d ds =>
+          have hds : ds <+: cs := (List.cons_prefix_cons.mp hq).2
+          by_cases hpat : pat <:+ ds
+          · exfalso
+            exact longestPrefixEnding_none_absurd pat cs ds hnone hds hpat
+          · have : pat = d :: ds := by
+              rcases List.suffix_cons_iff.mp hs with h1 | h1
+              · exact h1
+              · exact absurd h1 hpat
+            simp [this]
+      · cases h
+
+theorem mem_takeWhile_pred {α} (p : α → Bool) : ∀ (l : List α) (x : α), x ∈ l.takeWhile p → p x = true
+  | [], x, h => by simp at h
+  | a :: as, x, h => by
+    by_cases ha : p a = true
+    · simp only [List.takeWhile_cons, ha, if_true, List.mem_cons] at h
+      rcases h with rfl | h
+      · exact ha
+      · exact mem_takeWhile_pred p as x h
+    · simp [ha] at h
+
+/-- the greedy match of `Start(.*Action)`: the name follows `Start` literally, ends with `Action`, contains no newline -/
+theorem startActionName_sound (t n : Str) (h : startActionName t = some n) :
+    ("Start".toList ++ n) <+: t ∧ "Action".toList <:+ n ∧ '\n' ∉ n := by
+  unfold startActionName at h
+  split at h
+  · rename_i hp
+    obtain ⟨h1, h2⟩ := longestPrefixEnding_sound _ _ _ h
+    have hpre : "Start".toList <+: t := List.isPrefixOf_iff_prefix.mp hp
+    obtain ⟨r, hr⟩ := hpre
+    have hdrop : t.drop 5 = r := by rw [← hr]; simp
+    have hline : n <+: t.drop 5 := List.IsPrefix.trans h1 (List.takeWhile_prefix _)
+    refine ⟨?_, h2, ?_⟩
+    · rw [← hr, ← hdrop]
+      exact (List.prefix_append_right_inj _).mpr hline
+    · intro hmem
+      have := mem_takeWhile_pred _ _ _ (h1.subset hmem)
+      simp at this
+  · cases h
+
+/-- … and it is the LONGEST such name on the first line (greedy `.*`) -/
+theorem startActionName_greedy (t n q : Str) (h : startActionName t = some n)
+    (hq : q <+: (t.drop 5).takeWhile (· != '\n')) (hs : "Action".toList <:+ q) : q.length ≤ n.length := by
+  unfold startActionName at h
+  split at h
+  · exact longestPrefixEnding_greedy _ _ _ _ h hq hs
+  · cases h
+
+/-- no match: the type does not start with `Start`, or no prefix of the rest of its first line ends with `Action` -/
+theorem startActionName_none (t q : Str) (h : startActionName t = none) (hp : "Start".toList <+: t)
+    (hq : q <+: (t.drop 5).takeWhile (· != '\n')) : ¬ "Action".toList <:+ q := by
+  unfold startActionName at h
+  rw [if_pos (List.isPrefixOf_iff_prefix.mpr hp)] at h
+  exact fun hs => longestPrefixEnding_none_absurd _ _ _ h hq hs
+
 end NemoVerif.LlmAssemble
